@@ -196,6 +196,14 @@ static void values_case(uint64_t c) {
                 vf::fail("c15:value:pointer-operand-differs", "%s: direct < %d == %d > %d <= %d >= %d, through pointer < %d == %d > %d <= %d >= %d",
                          pairk.c_str(), lt, eq, gt, le, ge, plt, peq, pgt, ple, pge);
             }
+            // both operands pointers (what sorting an array of pointer-to-value elements compares)
+            V pb;
+            pb.SetPointerToValue(&b);
+            bool qlt = pa < pb, qgt = pa > pb, qeq = pa == pb, qle = pa <= pb, qge = pa >= pb;
+            if (qlt != lt || qgt != gt || qeq != eq || qle != le || qge != ge) {
+                vf::fail("c15:value:two-pointer-operands-differ", "%s: direct < %d == %d > %d <= %d >= %d, pointer-pointer < %d == %d > %d <= %d >= %d",
+                         pairk.c_str(), lt, eq, gt, le, ge, qlt, qeq, qgt, qle, qge);
+            }
         }
         // numbers of one kind compare by magnitude
         if (a.Type() == b.Type() && a.IsNumber()) {
